@@ -30,6 +30,7 @@ class Ctx(object):
         self.completed = False
         self.shutdown_returned_at = None
         self.final = {}
+        self.cfwaits = []
 
 
 def build(desc, s, w, ctx):
@@ -280,6 +281,27 @@ def run_clients(desc, s, w, ctx):
                         ctx.api.append((tid, "addcb", op[1], ("raise", e, s.now, len(s.log))))
                         continue
                     s.ev("ret", "addcb", vname(f), cbid)
+                elif k == "cfwait":
+                    f = ctx.futs.get(op[1])
+                    if f is None:
+                        continue
+                    import concurrent.futures as _cf
+                    s.yield_point("api")
+                    s.ev("call", "cfwait", vname(f), op[2])
+                    try:
+                        if op[3] == "as_completed":
+                            try:
+                                got = list(_cf.as_completed([f], timeout=op[2]))
+                            except _cf.TimeoutError:
+                                got = []
+                            released = bool(got)
+                        else:
+                            dn, nd = _cf.wait([f], timeout=op[2])
+                            released = f in dn
+                    except core.Abort:
+                        raise
+                    s.ev("ret", "cfwait", vname(f), released, f.done())
+                    ctx.cfwaits.append((op[1], vname(f), released, f.done(), s.now))
                 elif k == "shutdown":
                     do_shutdown(op[1], tid)
                 elif k == "sleep":
